@@ -37,6 +37,8 @@ Inductive op :=
 | AddGlobal (k : name) (v : value)          (* \gdef, \newcommand *)
 | LetMacro (d s : name)                     (* \let\d\s *)
 | LetTok (d : name) (t : ltok)              (* \let\d=<character token> *)
+| GLetMacro (d s : name)                    (* \global\let\d\s *)
+| GLetTok (d : name) (t : ltok)             (* \global\let\d=<character token> *)
 | Catcode (c : N) (k : N)                   (* \catcode`c=k, \makeatletter, \makeatother *)
 | Verbatim                                  (* setVerbatimCatcodes *)
 | Getitem (k : name)                        (* use of \k : context[k] *)
@@ -107,6 +109,8 @@ Definition set_cat (e : senv) (t : table) : senv :=
   {| loc_m := loc_m e; loc_l := loc_l e; cat := t; glo_m := glo_m e; glo_l := glo_l e; s_cells := s_cells e |}.
 Definition set_glo_m (e : senv) (m : list (name * value)) : senv :=
   {| loc_m := loc_m e; loc_l := loc_l e; cat := cat e; glo_m := m; glo_l := glo_l e; s_cells := s_cells e |}.
+Definition set_glo_l (e : senv) (l : list (name * ltok)) : senv :=
+  {| loc_m := loc_m e; loc_l := loc_l e; cat := cat e; glo_m := glo_m e; glo_l := l; s_cells := s_cells e |}.
 Definition set_cells (e : senv) (c : list (N * Z)) : senv :=
   {| loc_m := loc_m e; loc_l := loc_l e; cat := cat e; glo_m := glo_m e; glo_l := glo_l e; s_cells := c |}.
 
@@ -124,6 +128,8 @@ Definition sstep (o : op) (e : senv) : senv :=
   | AddGlobal k v => set_glo_m e ((k, v) :: glo_m e)
   | LetMacro d s => let (e1, v) := s_getitem e s in set_loc_m e1 ((d, v) :: loc_m e1)
   | LetTok d t => set_loc_l e ((d, t) :: loc_l e)
+  | GLetMacro d s => let (e1, v) := s_getitem e s in set_glo_m e1 ((d, v) :: glo_m e1)
+  | GLetTok d t => set_glo_l e ((d, t) :: glo_l e)
   | Catcode c k => set_cat e (set_catcode (cat e) c k)
   | Verbatim => set_cat e verbatim_table
   | Getitem k => fst (s_getitem e k)
@@ -148,9 +154,9 @@ Definition locals_of (o : option objinfo) : list (name * value) :=
 Definition enter (o : option objinfo) (e : senv) : senv := set_loc_m e (locals_of o ++ loc_m e).
 
 (* closing a group that was opened in e and whose inside ended in e1:
-   everything local is as in e; the global namespace and the cells are those of e1 *)
+   everything local is as in e; the global namespace (definitions and aliases) and the cells are those of e1 *)
 Definition leave (e e1 : senv) : senv :=
-  {| loc_m := loc_m e; loc_l := loc_l e; cat := cat e; glo_m := glo_m e1; glo_l := glo_l e; s_cells := s_cells e1 |}.
+  {| loc_m := loc_m e; loc_l := loc_l e; cat := cat e; glo_m := glo_m e1; glo_l := glo_l e1; s_cells := s_cells e1 |}.
 
 (* big-step lexical semantics of balanced histories: Sem K h e e' — running h in e ends in e' *)
 Inductive Sem : kind -> list op -> senv -> senv -> Prop :=
@@ -173,8 +179,8 @@ Definition brackets (o p : option objinfo) : bool :=
   | _, _ => false
   end.
 
-(* global effect of a history: the global namespace (and cells) after it, everything else is local *)
-Definition global_effect (e1 : senv) : list (name * value) * list (N * Z) := (glo_m e1, s_cells e1).
+(* global effect of a history: the global namespace (definitions, aliases) and the cells after it; everything else is local *)
+Definition global_effect (e1 : senv) : list (name * value) * list (name * ltok) * list (N * Z) := (glo_m e1, glo_l e1, s_cells e1).
 
 (* ---- innermost live definition ---- *)
 (* layers, innermost first; the definition of k in force is the one of the first layer that has one *)
@@ -189,8 +195,13 @@ Definition no_gwrite (k : name) (o : op) : bool :=
   match o with
   | AddGlobal k' _ => negb (k' =? k)
   | LetMacro _ s => negb (s =? k)
+  | GLetMacro d s => negb (d =? k) && negb (s =? k)
   | Getitem k' => negb (k' =? k)
   | NewIf a b c _ _ _ _ _ => negb (a =? k) && negb (b =? k) && negb (c =? k)
   | NewCounter _ thek _ _ => negb (thek =? k)
   | _ => true
   end.
+
+(* syntactic: the history never makes a global alias for k *)
+Definition no_glet (k : name) (o : op) : bool :=
+  match o with GLetTok d _ => negb (d =? k) | _ => true end.
